@@ -363,7 +363,12 @@ class DataSource(metaclass=ABCMeta):
         if not target_only:
             results.extend(self.query(filters + [Filter('source_ref', '=', obj_id)]))
         if not source_only:
-            results.extend(self.query(filters + [Filter('target_ref', '=', obj_id)]))
+            target_filters = filters + [Filter('target_ref', '=', obj_id)]
+            if not target_only:
+                # A relationship from the object to itself was found by the
+                # source_ref query already.
+                target_filters.append(Filter('source_ref', '!=', obj_id))
+            results.extend(self.query(target_filters))
 
         return results
 
